@@ -4,6 +4,7 @@ import (
 	"bytes"
 	"fmt"
 	"reflect"
+	"strings"
 	"sync"
 
 	"github.com/CrowdStrike/csproto"
@@ -46,6 +47,62 @@ func safely(f func()) (panicMsg string) {
 	}()
 	f()
 	return ""
+}
+
+// growMessage changes the encoded size of a message through its exported fields (first string, bytes
+// or integer field found, depth first); false if it found nothing to change.
+func growMessage(v reflect.Value) bool {
+	for v.Kind() == reflect.Ptr {
+		if v.IsNil() {
+			return false
+		}
+		v = v.Elem()
+	}
+	if v.Kind() != reflect.Struct {
+		return false
+	}
+	for i := 0; i < v.NumField(); i++ {
+		sf := v.Type().Field(i)
+		if sf.PkgPath != "" || strings.HasPrefix(sf.Name, "XXX_") {
+			continue
+		}
+		f := v.Field(i)
+		switch f.Kind() {
+		case reflect.String:
+			f.SetString(f.String() + strings.Repeat("g", 200))
+			return true
+		case reflect.Int32, reflect.Int64:
+			f.SetInt(int64(1)<<30 + 12345)
+			return true
+		case reflect.Uint32, reflect.Uint64:
+			f.SetUint(uint64(1)<<30 + 12345)
+			return true
+		case reflect.Slice:
+			if f.Type().Elem().Kind() == reflect.Uint8 {
+				f.SetBytes(append(append([]byte{}, f.Bytes()...), bytes.Repeat([]byte{7}, 200)...))
+				return true
+			}
+			for j := 0; j < f.Len(); j++ {
+				if growMessage(f.Index(j)) {
+					return true
+				}
+			}
+		case reflect.Ptr:
+			if !f.IsNil() && f.Elem().Kind() != reflect.Struct {
+				switch f.Elem().Kind() {
+				case reflect.String:
+					f.Elem().SetString(f.Elem().String() + strings.Repeat("g", 200))
+					return true
+				case reflect.Int32, reflect.Int64:
+					f.Elem().SetInt(int64(1)<<30 + 12345)
+					return true
+				}
+			} else if growMessage(f) {
+				return true
+			}
+		}
+	}
+	return false
 }
 
 func classCase(c *fw.Ctx, t shimType) {
@@ -116,6 +173,19 @@ func classCase(c *fw.Ctx, t shimType) {
 		txt, err := csproto.MarshalText(m)
 		if err != nil || txt != t.ops.text(m) {
 			fail("text", "csproto.MarshalText differs from the runtime's text format", t.ops.text(m), txt)
+		}
+		// Size / Marshal stay truthful after the message changed (no stale cached size on any path)
+		mm := csproto.Clone(m)
+		csproto.Size(mm)
+		csproto.Marshal(mm)
+		if growMessage(reflect.ValueOf(mm)) {
+			b4, err := csproto.Marshal(mm)
+			want, werr := t.ops.marshal(t.ops.clone(mm))
+			sz := csproto.Size(mm)
+			m5 := t.fresh()
+			if err != nil || werr != nil || sz != len(b4) || sz != t.ops.size(t.ops.clone(mm)) || t.ops.unmarshal(b4, m5) != nil || !t.ops.equal(mm, m5) {
+				fail("stale-after-mutation", "after Size/Marshal, a field change, and Size/Marshal again: size or bytes are not those of the current contents", fmt.Sprintf("size %d bytes %x", len(want), want), fmt.Sprintf("size %d bytes %x err=%v", sz, b4, err))
+			}
 		}
 		// Reset
 		csproto.Reset(cl)
